@@ -290,3 +290,92 @@ Example c13_heap_nonvacuous :
   Heap.reachable true Heap.init [] [] /\
   PipelineHeap.abs_alloc true Heap.init [2; 0] = mkA 0%N [] true [2; 0].
 Proof. split; [constructor|reflexivity]. Qed.
+
+(* ---- with JavaScript: evaluator-side caches = C20's JavaScript layer state --------------------------- *)
+(* Proofs/PipelineJs.v: C := Model/Js.v jsstate (disableCaching, VM pool, program cache, node-JSON
+   cache: any capacities and contents); eval_js runs the record's JavaScript calls through the
+   real stateful layer (Js.run), tabulates the answers and evaluates the record with the C02
+   evaluator whose oracle answers javascript / javascript_with_context from that table.
+   eval_caches_sound / CInv_mono / eval_cache_transparent / eval_id_renaming are DISCHARGED from
+   C20 (js_call_spec: program cache, node-JSON cache under the guard, VM isolation) and C02
+   (caches_invisible_eval, eval_id_renaming, and the oracle-extensionality of the evaluator).
+   Remaining modelling variables: which JavaScript calls a record's evaluation issues (jscalls),
+   how an invocation maps to a call (js_of, matches) and an outcome to a Go value (cf_of). *)
+From OV Require Model.Js Proofs.Js Proofs.JsRefute Proofs.PipelineJs.
+Module MJ := OV.Model.Js.
+Module PJ := OV.Proofs.Js.
+Module PJS := OV.Proofs.PipelineJs.
+
+Section C13_JS.
+  Variable r : MJ.rt.
+  Variable compile : N -> option MJ.script.
+  Hypothesis r_wf : PJ.rt_wf r.
+  Variable query : tree -> bytes -> path -> option (list path).
+  Variable ext : bytes -> option bytes.
+  Variable fsigs : bytes -> option fsig.
+  Variable fcall0 : tree -> bytes -> path -> list value -> cfres.
+  Variable pcall : tree -> bytes -> path -> cfres.
+  Hypothesis query_valid : forall root x p ps,
+    valid root p -> query root x p = Some ps -> Forall (valid root) ps.
+  Variable js_of : tree -> bytes -> path -> list value -> option (MJ.call * MJ.sched).
+  Variable matches : MJ.call * MJ.sched -> MJ.call * MJ.sched -> bool.
+  Hypothesis matches_spec : forall a b, matches a b = true ->
+    PJ.call_spec r compile (fst a) (snd a) = PJ.call_spec r compile (fst b) (snd b).
+  Variable cf_of : MJ.outcome * option bytes -> cfres.
+  Variable jscalls : bool -> vdecl -> world -> list (MJ.call * MJ.sched).
+  (* the F6 guard at pipeline level *)
+  Variable js_guard : vdecl -> Prop.
+  Hypothesis jscalls_wf : forall m s w, js_guard s -> NoDup (w_ids w) ->
+    forall c sc, In (c, sc) (jscalls m s w) ->
+      PJ.call_wf c sc /\ (forall id j, MJ.c_node c = Some (id, j) -> In id (w_rec_ids w)).
+  Hypothesis jscalls_stable : forall m s w, js_guard s -> NoDup (w_ids w) ->
+    PJ.content_stable_per_id (map fst (jscalls m s w)).
+  Variable progcap nodecap : N.
+  Variable marshal : value -> option bytes.
+  Variable marshal_err_cont : bool.
+  Variable H : bytes -> bytes.
+  Variable canon : tree -> bytes.
+  Notation eval_js := (PJS.eval_js r compile query ext fsigs fcall0 pcall js_of matches cf_of jscalls).
+  Notation run_env_js := (run_env vdecl value MJ.jsstate eval_js marshal marshal_err_cont H canon).
+  Notation InvJ := (PJS.InvJ r compile).
+
+  (* all hidden states: node pool / ID counter / sync.Pool schedule any, transform memo on or off,
+     JavaScript caches on or off, any capacities, any contents consistent with the invariant, VM
+     pool any contents equal to new runtimes; all schemas inside the guard *)
+  Theorem caches_invisible_js : forall h h' s ctx us,
+    InvJ h -> InvJ h' -> js_guard s -> run_env_js h s ctx us = run_env_js h' s ctx us.
+  Proof.
+    exact (PJS.caches_invisible_js r compile r_wf query ext fsigs fcall0 pcall query_valid js_of matches
+             matches_spec cf_of jscalls js_guard jscalls_wf jscalls_stable progcap nodecap
+             marshal marshal_err_cont H canon).
+  Qed.
+End C13_JS.
+
+(* a process that has not run anything yet satisfies InvJ whatever the switches and capacities *)
+Theorem js_fresh_process_inv : forall r compile pooling picks memo nocache pc nc,
+  PJS.InvJ r compile (mkHid (mkA 0%N [] pooling picks) memo (MJ.st_init nocache pc nc)).
+Proof. exact PJS.InvJ_fresh. Qed.
+
+(* non-vacuity: a runtime table meeting rt_wf, and a jscalls that really issues a
+   javascript_with_context call on the record node (its ID, its text as JSON) per record *)
+Definition tjs (_ : bool) (_ : vdecl) (w : world) : list (MJ.call * MJ.sched) :=
+  match w_rec_ids w with
+  | i :: _ => [(MJ.mkCall (Some (i, inner_text (w_rec w))) 1%N [] false, MJ.mkSched MJ.ChFresh [MJ.NODE] [MJ.NODE])]
+  | [] => []
+  end.
+
+Example c13_js_hypotheses_satisfiable :
+  PJ.rt_wf JsRefute.r0 /\
+  (forall m s w, True -> NoDup (w_ids w) -> forall c sc, In (c, sc) (tjs m s w) ->
+     PJ.call_wf c sc /\ (forall id j, MJ.c_node c = Some (id, j) -> In id (w_rec_ids w))) /\
+  (forall m s w, True -> NoDup (w_ids w) -> PJ.content_stable_per_id (map fst (tjs m s w))).
+Proof.
+  split; [exact JsRefute.r0_wf|split].
+  - intros m s w _ _ c sc Hin. unfold tjs in Hin. destruct (w_rec_ids w) as [|i l] eqn:E; [destruct Hin|].
+    destruct Hin as [Hin|[]]. inversion Hin; subst. split.
+    + apply PJ.call_wf_b_sound. vm_compute. reflexivity.
+    + intros id j Hc. simpl in Hc. inversion Hc; subst. now left.
+  - intros m s w _ _ c1 c2 id b1 b2 H1 H2 E1 E2. unfold tjs in *.
+    destruct (w_rec_ids w) as [|i l]; [destruct H1|].
+    destruct H1 as [<-|[]]. destruct H2 as [<-|[]]. simpl in *. congruence.
+Qed.
